@@ -27,7 +27,7 @@ fn dec_case(rng: &mut Rng, ctx: &mut Ctx) {
     let enc = *rng.pick(Enc::all());
     let request = rng.bool();
     let bs = *rng.pick(&[1usize, 64, 8192]);
-    let default_limit = rng.chance(1, 60);
+    let default_limit = !small() && rng.chance(1, 60);
     let n = rng.urange(1, 5);
     let target = rng.usize_below(n);
     let rel: i64 = rng.range(0, 2) as i64 - 1; // limit = target_len + rel  => rel -1 rejects
@@ -235,7 +235,7 @@ fn enc_case(rng: &mut Rng, ctx: &mut Ctx) {
     let yt = *rng.pick(&[0usize, 64, 32768, 1 << 20]);
     let n = rng.urange(1, 6);
     let target = rng.usize_below(n);
-    let sizes: Vec<usize> = (0..n).map(|_| *rng.pick(&[0usize, 1, 3, 5, 10, 100, 300, 3000])).collect();
+    let sizes: Vec<usize> = (0..n).map(|_| if small() { *rng.pick(&[0usize, 1, 3, 5, 10, 40]) } else { *rng.pick(&[0usize, 1, 3, 5, 10, 100, 300, 3000]) }).collect();
     let items: Vec<Vec<u8>> = sizes.iter().map(|&s| rng.payload(s)).collect();
     let src_class = rng.below(4);
     // unlimited run to learn the on-the-wire lengths tonic produces
